@@ -304,6 +304,25 @@ theorem keltner_ordered (V : Valid o h l c v) (N p : Nat) (i : Nat) :
   push_cast
   constructor <;> nlinarith
 
+/-- **Keltner with separately configured components**: whenever the ATR (over any moving average) is non-negative at `i`,
+    upper ≥ middle ≥ lower there, for an EMA of any period `ep` -/
+theorem keltnerG_ordered_of_atr_nonneg (N : Nat) (k : Spec.Ma) (ep : Nat) (i : Nat)
+    (ha : 0 ≤ (atr N k (input h) (input l) (input c)).val i) :
+    let a := scale two (atr N k (input h) (input l) (input c))
+    let m := ema N ep two (input c)
+    (m - a).val i ≤ m.val i ∧ m.val i ≤ (m + a).val i := by
+  intro a m
+  simp only [a, sub_val, add_val, scale_val, sub_eq, add_eq, mul_eq, two, arith_nat]
+  push_cast
+  constructor <;> nlinarith
+
+/-- the default ATR (simple moving average of the true range), any ATR period `ap` and EMA period `ep` -/
+theorem keltnerG_sma_ordered (V : Valid o h l c v) (N ap ep : Nat) (i : Nat) :
+    let a := scale two (atr N (.sma ap) (input h) (input l) (input c))
+    let m := ema N ep two (input c)
+    (m - a).val i ≤ m.val i ∧ m.val i ≤ (m + a).val i :=
+  keltnerG_ordered_of_atr_nonneg N (.sma ap) ep i (atr_sma_nonneg V N ap i)
+
 /-- **Acceleration bands: upper ≥ middle ≥ lower** -/
 theorem acceleration_ordered (V : Valid o h l c v) (p i : Nat) (hp : 1 ≤ p) :
     let k := (input h - input l) / (input h + input l)
